@@ -2,7 +2,8 @@
      parse raw = Ok c  <->  Accepts_b raw = true /\ c = defaults raw
    (one lemma per parser function, composed in the order of the call graph). *)
 From Coq Require Import Lia ZifyBool Btauto.
-From CR Require Import Model.Config Model.ConfigSpec.
+From CR Require Import Model.Config.
+From CR Require Import Model.ConfigSpec.
 Local Open Scope Z_scope.
 
 (* [r] succeeds exactly when [ok] holds, and then with value [v] *)
